@@ -99,8 +99,9 @@ func c04Parse(w *c04World) wire.ParseFn {
 }
 
 type c04Session struct {
-	Name string
-	Auth bool
+	Name     string
+	NoPrefix bool // not part of the prefix-closure family (whole-session family only)
+	Auth     bool
 	Segs [][]byte // logical messages (for naming / boundaries); delivered as one stream
 }
 
@@ -146,8 +147,43 @@ func c04Bodies() []struct {
 	}
 }
 
+// c04BindShape builds a structurally consistent Bind with f format codes, n values and r result codes
+// (inadmissible combinations included: the server must survive them).
+func c04BindShape(f, n, r int) []byte {
+	pf := make([]int16, f)
+	for i := range pf {
+		pf[i] = int16(i % 2)
+	}
+	vals := make([][]byte, n)
+	for i := range vals {
+		vals[i] = []byte(fmt.Sprintf("v%d", i))
+	}
+	rf := make([]int16, r)
+	return pgproto.Bind("p", "s", pf, vals, rf)
+}
+
 func c04Sessions() []c04Session {
 	var out []c04Session
+	// Bind messages with every small combination of (format codes, values, result codes)
+	for f := 0; f <= 4; f++ {
+		for n := 0; n <= 4; n++ {
+			for r := 0; r <= 3; r++ {
+				if r > 0 && (f+n)%2 == 0 && r != 3 {
+					continue
+				}
+				out = append(out, c04Session{Name: fmt.Sprintf("bind shape formats=%d values=%d results=%d", f, n, r), NoPrefix: true,
+					Segs: [][]byte{pgproto.Startup("user", "u"), pgproto.Parse("s", "select $1, $2, $3"), c04BindShape(f, n, r), pgproto.Describe('P', "p"), pgproto.Execute("p", 0), pgproto.Sync(), pgproto.Query(progRows)}})
+			}
+		}
+	}
+	// an oversized message followed by a message whose payload is a run of well-framed queries: if the
+	// oversized body is skipped by the wrong amount, the reader resumes inside that payload
+	frame := pgproto.Query("smuggled")
+	payload := bytes.Repeat(frame, 700)
+	for k := 1; k <= len(frame); k++ {
+		out = append(out, c04Session{Name: fmt.Sprintf("oversized by %d then a payload of framed queries", k), NoPrefix: true,
+			Segs: [][]byte{pgproto.Startup("user", "u"), pgproto.Msg('Q', make([]byte, c04Limit+k)), pgproto.Msg('d', payload[:8000]), pgproto.Query(progRows)}})
+	}
 	bodies := c04Bodies()
 	starts := []struct {
 		n    string
@@ -375,6 +411,64 @@ func c04Phase(s c04Session, cut int) string {
 		off += len(seg)
 	}
 	return "end"
+}
+
+// c04SentQueries lists the query texts the client really sent as Query / Parse messages.
+func c04SentQueries(s c04Session) map[string]bool {
+	sent := map[string]bool{}
+	for _, seg := range s.Segs {
+		b := seg
+		for len(b) >= 5 {
+			l := int(binary.BigEndian.Uint32(b[1:5]))
+			if l < 4 || 1+l > len(b) {
+				break
+			}
+			body := b[5 : 1+l]
+			switch b[0] {
+			case 'Q':
+				if i := bytes.IndexByte(body, 0); i >= 0 {
+					sent[string(body[:i])] = true
+				}
+			case 'P':
+				if i := bytes.IndexByte(body, 0); i >= 0 {
+					rest := body[i+1:]
+					if j := bytes.IndexByte(rest, 0); j >= 0 {
+						sent[string(rest[:j])] = true
+					}
+				}
+			}
+			b = b[1+l:]
+		}
+	}
+	return sent
+}
+
+// c04RunWhole serves the complete session: survival, closure, probe, and no callback for a query the client never sent as a message.
+func c04RunWhole(s c04Session) explore.Result {
+	var res explore.Result
+	res.Outcome = "whole-session"
+	res.Key = "whole " + s.Name
+	o := c04Run(s.Auth, c04Feed{Stream: s.stream()}, false)
+	what := fmt.Sprintf("session %q", s.Name)
+	if !c04Common(&res, o, what) {
+		return res
+	}
+	sent := c04SentQueries(s)
+	for _, e := range o.events {
+		if strings.HasPrefix(e, "parse ") {
+			var q string
+			fmt.Sscanf(e[6:], "%q", &q)
+			if !sent[q] {
+				res.Fail("fabricated-callback", fmt.Sprintf("%s: the parser was invoked with %q, which the client never sent as a Query / Parse message (bytes of another message's payload were interpreted as a message)", what, q))
+				break
+			}
+		}
+	}
+	if len(o.params) > 4 {
+		res.Fail("fabricated-parameter", fmt.Sprintf("%s: a statement received %d parameters", what, len(o.params)))
+	}
+	res.Trans = []string{"serving|whole session|closed"}
+	return res
 }
 
 // ---- family 2: field mutations ---------------------------------------------------
@@ -634,7 +728,7 @@ func init() {
 		Bounds: func(tier string) map[string]any {
 			return map[string]any{"sessions": len(c04Sessions()), "mutation_targets": len(c04Targets()), "raw_length_fresh": c04RawLen(tier), "limit": c04Limit}
 		},
-		RequiredOutcomes: []string{"prefix", "mutation-session", "mutation-copy", "mutation-startup", "mutation-auth", "transport-fault", "raw-bytes"},
+		RequiredOutcomes: []string{"whole-session", "prefix", "mutation-session", "mutation-copy", "mutation-startup", "mutation-auth", "transport-fault", "raw-bytes"},
 	})
 }
 
@@ -647,9 +741,17 @@ func c04RawLen(tier string) int {
 
 func c04Enumerate(tier string, emit explore.Emit) {
 	sessions := c04Sessions()
+	for _, s := range sessions {
+		s := s
+		emit(explore.Case{Family: "whole-session", Size: 0, Desc: func() any { return map[string]any{"session": s.Name} },
+			Run: func() explore.Result { return c04RunWhole(s) }})
+	}
 	// 1. prefix closure
 	for si, s := range sessions {
 		s := s
+		if s.NoPrefix {
+			continue
+		}
 		n := len(s.stream())
 		for cut := 0; cut < n; cut++ {
 			if tier != "thorough" && si%2 == 1 && cut%3 != 0 {
@@ -687,7 +789,7 @@ func c04Enumerate(tier string, emit explore.Emit) {
 	}
 	// 3. transport faults
 	for si, s := range sessions {
-		if tier != "thorough" && si%3 != 0 {
+		if (tier != "thorough" && si%3 != 0) || s.NoPrefix {
 			continue
 		}
 		s := s
